@@ -1,12 +1,119 @@
 /-
-  Props.C10 — the theorems that decide property C10 (see DESIGN.md §7).
+  Props.C10 — ill-typed, wrong-arity and unknown function calls are errors,
+  never panics (DESIGN.md §7, C10).  Statements are about
+  `Fn.callFunction` with the table REGENERATED from /repo
+  (`Generated.functionTable`), carried over from the specification's table
+  through `generated_sigs_ok`.
 -/
 import Props.Tables
+import Proofs.FunctionsSafe
+import Proofs.WellTyped
 namespace Jmes.Props
-open Jmes
+open Jmes Jmes.Fn
 
 theorem C10_generated_table_ok : TableOK Generated.table = true := generated_table_ok
+/-- The regenerated function table has exactly the specification's 26 names,
+    each wired to its own handler, with the specification's signature. -/
 theorem C10_generated_sigs_ok : SigsOK Generated.functionTable Spec.functionTable = true := generated_sigs_ok
 theorem C10_generated_lex_ok : LexTablesOK Model.lexTables Spec.lexTables = true := generated_lex_ok
+
+variable {N : Type} [NumOps N]
+
+/-- The library's `CallFunction` is the specification table's. -/
+theorem C10_call_is_spec_call (name : Bytes) (args : List (Arg N)) :
+    callFunction Generated.functionTable name args = callFunction Spec.functionTable name args :=
+  callFunction_congr _ _ generated_sigs_ok name args
+
+/-- The declared signature of a name, if the specification knows it. -/
+def sigOf (name : Bytes) : Option (List ArgSpec) :=
+  (Spec.functionTable.find? (fun e => keyBytes e.key = name)).map (·.args)
+
+/-- An unknown function name is an error. -/
+theorem C10_unknown_function (name : Bytes) (args : List (Arg N)) (h : sigOf name = none) :
+    ∃ e, callFunction Generated.functionTable name args = .err e := by
+  rw [C10_call_is_spec_call]
+  unfold sigOf at h
+  unfold callFunction
+  cases hf : List.find? (fun e => keyBytes e.key = name) Spec.functionTable with
+  | none => exact ⟨_, rfl⟩
+  | some e => rw [hf] at h; simp at h
+
+/-- A known function called with the wrong number of arguments, or with any
+    argument — in any position, variadic ones included, an expression reference
+    where a value is required or a value where a reference is required —
+    outside its declared types, is an error: never a value, never a panic. -/
+theorem C10_ill_typed_call_is_error (name : Bytes) (sig : List ArgSpec) (args : List (Arg N))
+    (hs : sigOf name = some sig) (hw : ¬ WellTyped sig args) :
+    ∃ e, callFunction Generated.functionTable name args = .err e := by
+  rw [C10_call_is_spec_call]
+  unfold sigOf at hs
+  unfold callFunction
+  cases hf : List.find? (fun e => keyBytes e.key = name) Spec.functionTable with
+  | none => exact ⟨_, rfl⟩
+  | some e =>
+    rw [hf] at hs
+    simp only [Option.map_some, Option.some.injEq] at hs
+    subst hs
+    have hne : resolveArgs e args ≠ .ok () := fun h => hw ((resolveArgs_ok_iff e args).mp h)
+    obtain ⟨er, her⟩ := resolveArgs_err_of_not_ok e args hne
+    exact ⟨er, by simp only [her]⟩
+
+/-- No call panics, whatever the name and the arguments (given that the
+    expression references among them do not: see C05 for the interpreter). -/
+theorem C10_calls_never_panic (name : Bytes) (args : List (Arg N)) (hs : RefsSafe args) :
+    (callFunction Generated.functionTable name args).isPanic = false := by
+  rw [C10_call_is_spec_call]
+  exact spec_call_np name args hs
+
+/-- `sort_by`: a first key that is neither a number nor a string is an error
+    — for every array length ≥ 1, the one-element array included. -/
+theorem C10_sort_by_key_type (f : Val N → Res (Val N)) (x : Val N) (xs : List (Val N)) (k : Val N)
+    (hk : f x = .ok k) (hn : ∀ n, k ≠ .num n) (hstr : ∀ s, k ≠ .str s) :
+    ∃ e, sortBy f (x :: xs) = .err e := by
+  cases k with
+  | num n => exact absurd rfl (hn n)
+  | str s => exact absurd rfl (hstr s)
+  | _ => simp only [sortBy, hk]; exact ⟨_, rfl⟩
+
+/-- `max_by` / `min_by` likewise. -/
+theorem C10_extreme_by_key_type (f : Val N → Res (Val N)) (isMax : Bool) (x : Val N) (xs : List (Val N)) (k : Val N)
+    (hk : f x = .ok k) (hn : ∀ n, k ≠ .num n) (hstr : ∀ s, k ≠ .str s) :
+    ∃ e, extremeBy f isMax (x :: xs) = .err e := by
+  cases k with
+  | num n => exact absurd rfl (hn n)
+  | str s => exact absurd rfl (hstr s)
+  | _ => simp only [extremeBy, hk]; exact ⟨_, rfl⟩
+
+/-- A key expression that fails makes the by-expression function fail. -/
+theorem C10_by_key_error_propagates (f : Val N → Res (Val N)) (isMax : Bool) (x : Val N) (xs : List (Val N)) (e : Err)
+    (hk : f x = .err e) : sortBy f (x :: xs) = .err e ∧ extremeBy f isMax (x :: xs) = .err e := by
+  constructor <;> simp only [sortBy, extremeBy, hk]
+
+/-- Keys that are not consistently numbers: a number first and a non-number later is an error. -/
+theorem C10_mixed_keys_max_by (f : Val N → Res (Val N)) (isMax : Bool) (x y : Val N) (n : N) (k : Val N)
+    (h0 : f x = .ok (.num n)) (h1 : f y = .ok k) (hk : ∀ m, k ≠ .num m) :
+    ∃ e, extremeBy f isMax [x, y] = .err e := by
+  cases k with
+  | num m => exact absurd rfl (hk m)
+  | _ => simp only [extremeBy, h0, byLoopNum, h1]; exact ⟨_, rfl⟩
+
+theorem C10_mixed_keys_sort_by (f : Val N → Res (Val N)) (x y : Val N) (n : N) (k : Val N)
+    (h0 : f x = .ok (.num n)) (h1 : f y = .ok k) (hk : ∀ m, k ≠ .num m) :
+    ∃ e, sortBy f [x, y] = .err e := by
+  cases k with
+  | num m => exact absurd rfl (hk m)
+  | _ => simp only [sortBy, h0, keysNum, h1]; exact ⟨_, rfl⟩
+
+/-! Non-vacuity. -/
+example : sigOf (keyBytes "merge") = some [{ types := [.object], variadic := true }] := by decide +kernel
+example : sigOf (keyBytes "nosuch") = none := by decide +kernel
+example : ¬ WellTyped [({ types := [.object], variadic := true } : ArgSpec)] [(.val (.str [0x61]) : Arg Int)] := by
+  intro h
+  have := h.2 0 (by simp)
+  simp [typeCheck, typeOk] at this
+example : ¬ WellTyped [({ types := [.any], variadic := false } : ArgSpec)] [(.ref (fun v => .ok v) : Arg Int)] := by
+  intro h
+  have := h.2 0 (by simp)
+  simp [typeCheck, typeOk] at this
 
 end Jmes.Props
